@@ -24,6 +24,12 @@ def programs():
                 out.append((pre + f"{t} is {c}\n", t, c, "poetic-expr") if c[0] in "-0123456789\"" or c in ("mysterious", "true", "null", "empty") else (pre + f"put {c} into {t}\n", t, c, "put"))
             out.append((pre + f"rock {t} with {c}\n", t, c, "push"))
     out.append(("x is a lovestruck ladykiller\nrock x like a razor\n", "x", "", "already-poetic"))
+    # targets the report has to render that are not names: literals, calls, pops, subscripts of those
+    for t in ("5", "\"s\"", "mysterious", "F taking 1", "roll Q", "Q at 0 at 1", "F taking 1 at 2", "roll Q at 0", "it at 0"):
+        for c in ("5", "1 plus 2", "\"hello\"", "x"):
+            out.append((f"rock {t} with {c}\n", t, c, "push-odd-target"))
+            out.append((f"let {t} at 0 be {c}\n", t, c, "let-odd-target"))
+            out.append((f"put {c} into {t} at 1\n", t, c, "put-odd-target"))
     out.append(("if true\nput 5 into x\nwhile x\nlet y be 6\nF takes z\nput 7 into z\n\n\n\n", "x", "", "nested"))
     return out
 
